@@ -5,7 +5,7 @@ import random
 import warnings
 from fractions import Fraction as F
 
-from harness import apalache, core, tlc, tracecheck, gen_trackers
+from harness import apalache, tlaps, core, tlc, tracecheck, gen_trackers
 from harness.fieldp import qpair
 
 PID = "C12"
@@ -149,6 +149,7 @@ def run(tier, seed):
     ctx.add_tlc("MC_MVIndTLC: SkeletonIsMVUpd IndInv PerKeySinceFirst KeysMonotone", rr)
     apalache.inductive(ctx, "MC_MVInd", "CInitOK", "IndInit", "IndInv", "PerKeySinceFirst", "3 keys, any number of updates",
                        negative_cinit="CInitBug")
+    tlaps.prove(ctx, "MVIndProof", "counting invariant of MultiValueTracker inductive for every key set and every number of updates")
     cfg = "MC_MultiValue_emit" if quick else "MC_MultiValue_emit_t"
     r = tlc.require_ok(tlc.run("MC_MultiValue", cfg, workers=1, tag="c12emit"), cfg)
     states = r.json_prints()
